@@ -6,6 +6,8 @@ import PS.Model.Parse
 import PS.Model.Initialize
 import PS.Spec.Twins
 import PS.Model.Solver
+import PS.Model.Solution
+import PS.Model.Export
 open PS
 
 structure Session where
@@ -66,6 +68,38 @@ def handle (ss : Session) (line : String) : Session × List String :=
         let ans := answers.filterMap parseAnswer
         let s := runOps { cfg } ss.st ops' ans
         (ss, ("(n " ++ toString s.trace.length ++ ")") :: s.trace.map Ev.print)
+    | .list [.atom "outputs", delta, t0, equiv, .list vals] =>
+        let ints := vals.filterMap (fun v => match v with
+          | .list [n, x] => match n.asStr?, x.asInt? with | some n, some x => some (n, x) | _, _ => none
+          | _ => none)
+        let bools := vals.filterMap (fun v => match v with
+          | .list [n, x] => match n.asStr?, x.asBool? with | some n, some x => some (n, x) | _, _ => none
+          | _ => none)
+        let cal : Calendar := { delta := delta.asInt?, t0 := t0.asInt? }
+        -- after `initialize` with several objectives the solver has registered its equivalent indicator
+        let st' : State := if (equiv.asBool?).getD false then
+            { ss.st with indicators := ss.st.indicators ++
+                [{ id := ss.st.indicators.length, key := some "EquivalentIndicator", name := "EquivalentIndicator",
+                   var := .ind "EquivalentIndicator", bounds := none, body := .residue }] }
+          else ss.st
+        let sol := buildSolution st' (envOf ints bools) cal
+        let ls := (dfRows sol).map (·.print) ++ (excelCells sol).map (·.print) ++
+          ["mode task"] ++ (ganttRowLabels sol true).map (fun l => "ylabel " ++ Sexp.quote l) ++ (ganttBars sol true).map (·.print) ++
+          ["mode resource"] ++ (ganttRowLabels sol false).map (fun l => "ylabel " ++ Sexp.quote l) ++ (ganttBars sol false).map (·.print) ++
+          sol.buffers.flatMap (fun b => (bufferSteps sol.horizon b).map (fun s =>
+            "step " ++ Sexp.quote b.name ++ " " ++ toString s.1 ++ " " ++ toString s.2.1 ++ " " ++ toString s.2.2))
+        (ss, ("(n " ++ toString ls.length ++ ")") :: ls)
+    | .list [.atom "build", delta, t0, .list vals] =>
+        let ints := vals.filterMap (fun v => match v with
+          | .list [n, x] => match n.asStr?, x.asInt? with | some n, some x => some (n, x) | _, _ => none
+          | _ => none)
+        let bools := vals.filterMap (fun v => match v with
+          | .list [n, x] => match n.asStr?, x.asBool? with | some n, some x => some (n, x) | _, _ => none
+          | _ => none)
+        let cal : Calendar := { delta := delta.asInt?, t0 := t0.asInt? }
+        let sol := buildSolution ss.st (envOf ints bools) cal
+        let ls := sol.print
+        (ss, ("(n " ++ toString ls.length ++ ")") :: ls)
     | .list [.atom "spec", .atom which] =>
         let fs := match which with
           | "C01" => specC01 ss.st
